@@ -98,6 +98,16 @@ var guardSpecs = []guardSpec{
 	{"obsAppendGuard", "pkg/controller.v1beta1/suggestion/suggestionclient/suggestionclient.go", "convertTrialObservation", "append(resObservation.Metrics", coAtoms, coParams, true},
 	{"trialSentGuard", "pkg/controller.v1beta1/suggestion/suggestionclient/suggestionclient.go", "ConvertTrials", "append(trialsRes, trial)", coAtoms, coParams, true},
 	{"trialConditionSentGuard", "pkg/controller.v1beta1/suggestion/suggestionclient/suggestionclient.go", "ConvertTrials", "stmt:trial.Status.Condition = convertTrialConditionType(", coAtoms, coParams, true},
+	{"consumeGuard", "pkg/controller.v1beta1/experiment/manifest/generator.go", "applyParameters", `stmt:nonMetaParamCount += 1`, tplAtoms, tplParams, true},
+	{"errNotAssignedGuard", "pkg/controller.v1beta1/experiment/manifest/generator.go", "applyParameters", `errParamNotFoundInParameterAssignment`, tplAtoms, tplParams, true},
+	{"errIllegalRefGuard", "pkg/controller.v1beta1/experiment/manifest/generator.go", "applyParameters", `fmt.Errorf("illegal reference of trial metadata: %v", param.Reference)`, tplAtoms, tplParams, true},
+	{"errNoAnnotationGuard", "pkg/controller.v1beta1/experiment/manifest/generator.go", "applyParameters", `failed to fetch Annotation`, tplAtoms, tplParams, true},
+	{"errNoLabelGuard", "pkg/controller.v1beta1/experiment/manifest/generator.go", "applyParameters", `failed to fetch Label`, tplAtoms, tplParams, true},
+	{"useFoundValueGuard", "pkg/controller.v1beta1/experiment/manifest/generator.go", "applyParameters", `stmt=:placeHolderToValueMap[param.Name] = value`, tplAtoms, tplParams, true},
+	{"useNameGuard", "pkg/controller.v1beta1/experiment/manifest/generator.go", "applyParameters", `stmt=:placeHolderToValueMap[param.Name] = trialName`, tplAtoms, tplParams, true},
+	{"useNamespaceGuard", "pkg/controller.v1beta1/experiment/manifest/generator.go", "applyParameters", `stmt=:placeHolderToValueMap[param.Name] = trialNamespace`, tplAtoms, tplParams, true},
+	{"useKindGuard", "pkg/controller.v1beta1/experiment/manifest/generator.go", "applyParameters", `stmt=:placeHolderToValueMap[param.Name] = trialSpec.GetKind()`, tplAtoms, tplParams, true},
+	{"useAPIVersionGuard", "pkg/controller.v1beta1/experiment/manifest/generator.go", "applyParameters", `stmt=:placeHolderToValueMap[param.Name] = trialSpec.GetAPIVersion()`, tplAtoms, tplParams, true},
 	{"addFinalizerGuard", "pkg/controller.v1beta1/trial/trial_controller_util.go", "needUpdateFinalizers", "append(pendingFinalizers, cleanMetricsFinalizer)", finAtoms, finParams, false},
 	{"removeFinalizerGuard", "pkg/controller.v1beta1/trial/trial_controller_util.go", "needUpdateFinalizers", "stmt:finalizers := []string{}", finAtoms, finParams, false},
 	{"dbCleanupGuard", "pkg/controller.v1beta1/trial/trial_controller_util.go", "updateFinalizers", "r.DeleteTrialObservationLog(instance)", finAtoms, finParams, false},
@@ -234,6 +244,16 @@ var coAtoms = map[string]string{
 var coParams = []string{"obsSet", "metricsSet", "byMin", "byMax", "byLatest", "minUnavailable", "maxUnavailable", "metricsUnavailable",
 	"observationAvailable", "earlyStopped", "labelsSet", "goalSet", "hasConditions"}
 
+var tplAtoms = map[string]string{
+	"err != nil": "failed#", "trialSpec == nil": "specNil", "len(sub) == 0": "plainRef", "ok": "found#", "len(sub) > 0": "indexedRef",
+	"len(sub) != 3": "badIndex", "metaRefKey == consts.TrialTemplateMetaKeyOfName": "keyName",
+	"metaRefKey == consts.TrialTemplateMetaKeyOfNamespace": "keyNamespace", "metaRefKey == consts.TrialTemplateMetaKeyOfKind": "keyKind",
+	"metaRefKey == consts.TrialTemplateMetaKeyOfAPIVersion": "keyAPIVersion",
+	"metaRefKey == consts.TrialTemplateMetaKeyOfAnnotations": "keyAnnotations", "metaRefKey == consts.TrialTemplateMetaKeyOfLabels": "keyLabels",
+}
+var tplParams = []string{"failed1", "failed2", "specNil", "plainRef", "found1", "found2", "found3", "indexedRef", "badIndex", "keyName", "keyNamespace",
+	"keyKind", "keyAPIVersion", "keyAnnotations", "keyLabels"}
+
 var finAtoms = map[string]string{
 	"trial.ObjectMeta.DeletionTimestamp.IsZero()": "(!deleting)", "instance.ObjectMeta.DeletionTimestamp.IsZero()": "(!deleting)",
 	"contained": "hasFinalizer", "elem == cleanMetricsFinalizer": "isKatibFinalizer", "pendingFinalizer != cleanMetricsFinalizer": "(!isKatibFinalizer)",
@@ -350,8 +370,14 @@ func (g *guardWalker) containsCall(n ast.Node) bool {
 	hit := false
 	ident := strings.TrimPrefix(g.spec.call, "ident:")
 	stmt := strings.TrimPrefix(g.spec.call, "stmt:")
+	exact := strings.TrimPrefix(g.spec.call, "stmt=:")
 	ast.Inspect(n, func(m ast.Node) bool {
-		if stmt != g.spec.call {
+		if exact != g.spec.call {
+			// `stmt=:<text>`: a statement whose source is exactly <text>
+			if st, ok := m.(ast.Stmt); ok && nodeSrc(g.fset, st) == exact {
+				hit = true
+			}
+		} else if stmt != g.spec.call {
 			// `stmt:<text>`: a statement whose source starts with <text>
 			if st, ok := m.(ast.Stmt); ok && strings.HasPrefix(nodeSrc(g.fset, st), stmt) {
 				hit = true
